@@ -79,6 +79,22 @@ type c13Run struct {
 	layerTransition bool
 	nestedRevert    bool
 	reopens, blocks int
+	// a flushed block whose Commit has not been issued yet (reads in between are served by the account cache)
+	pendingAccounts map[string]ethledger.IAccount
+	pendingRoot     *types.Hash
+	pendingHeight   uint64
+	readsBetweenFlushAndCommit int
+}
+
+func (r *c13Run) commitPending() {
+	if r.pendingRoot == nil {
+		return
+	}
+	r.logf("Commit(%d)", r.pendingHeight)
+	if err := r.l.Commit(r.pendingHeight, r.pendingAccounts, r.pendingRoot); err != nil {
+		r.fail("Commit(%d) failed: %v", r.pendingHeight, err)
+	}
+	r.pendingRoot, r.pendingAccounts = nil, nil
 }
 
 func (r *c13Run) logf(f string, a ...interface{}) { r.ops = append(r.ops, fmt.Sprintf(f, a...)) }
@@ -204,6 +220,7 @@ func c13Property(t *rapid.T) {
 
 	t.Repeat(map[string]func(*rapid.T){
 		"set": func(t *rapid.T) {
+			r.commitPending()
 			a, k, v := drawAcct(), drawKey(), drawVal()
 			r.logf("SetState(%d,%q,%q)", a, k, v)
 			r.l.SetState(c13Addrs[a], []byte(k), v, nil)
@@ -211,6 +228,7 @@ func c13Property(t *rapid.T) {
 			setLayer(a, k, "dirty")
 		},
 		"delete": func(t *rapid.T) {
+			r.commitPending()
 			a, k := drawAcct(), drawKey()
 			r.logf("SetState(%d,%q,nil)  // delete", a, k)
 			r.l.SetState(c13Addrs[a], []byte(k), nil, nil)
@@ -218,6 +236,7 @@ func c13Property(t *rapid.T) {
 			setLayer(a, k, "dirty")
 		},
 		"add": func(t *rapid.T) {
+			r.commitPending()
 			a, k, v := drawAcct(), drawKey(), drawVal()
 			if len(v) == 0 {
 				v = []byte("n")
@@ -231,11 +250,15 @@ func c13Property(t *rapid.T) {
 			setLayer(a, k, "dirty")
 		},
 		"get": func(t *rapid.T) {
+			if r.pendingRoot != nil {
+				r.readsBetweenFlushAndCommit++
+			}
 			a, k := drawAcct(), drawKey()
 			r.logf("GetState(%d,%q)", a, k)
 			checkKey(a, k)
 		},
 		"balance": func(t *rapid.T) {
+			r.commitPending()
 			a := drawAcct()
 			v := big.NewInt(int64(rapid.IntRange(0, 1000).Draw(t, "bal")))
 			r.logf("SetBalance(%d,%s)", a, v)
@@ -243,6 +266,7 @@ func c13Property(t *rapid.T) {
 			r.cur[a].balance = new(big.Int).Set(v)
 		},
 		"nonce": func(t *rapid.T) {
+			r.commitPending()
 			a := drawAcct()
 			v := uint64(rapid.IntRange(0, 50).Draw(t, "nonce"))
 			r.logf("SetNonce(%d,%d)", a, v)
@@ -250,6 +274,7 @@ func c13Property(t *rapid.T) {
 			r.cur[a].nonce = v
 		},
 		"code": func(t *rapid.T) {
+			r.commitPending()
 			a := drawAcct()
 			v := rapid.SliceOfN(rapid.Byte(), 1, 8).Draw(t, "code")
 			r.logf("SetCode(%d,%x)", a, v)
@@ -257,12 +282,14 @@ func c13Property(t *rapid.T) {
 			r.cur[a].code = v
 		},
 		"query": func(t *rapid.T) {
+			r.commitPending()
 			a := drawAcct()
 			p := rapid.SampledFrom(c13Prefixes).Draw(t, "prefix")
 			r.logf("QueryByPrefix(%d,%q)", a, p)
 			checkQuery(a, p)
 		},
 		"snapshot": func(t *rapid.T) {
+			r.commitPending()
 			if len(r.snaps) >= 4 {
 				t.Skip("enough snapshots")
 			}
@@ -271,6 +298,7 @@ func c13Property(t *rapid.T) {
 			r.snaps = append(r.snaps, c13Snap{id: id, state: r.cur.clone()})
 		},
 		"revert": func(t *rapid.T) {
+			r.commitPending()
 			if len(r.snaps) == 0 {
 				t.Skip("no live snapshot")
 			}
@@ -290,29 +318,41 @@ func c13Property(t *rapid.T) {
 			}
 		},
 		"txBoundary": func(t *rapid.T) {
+			r.commitPending()
 			r.logf("Finalise(true)  // transaction boundary")
 			r.l.Finalise(true)
 			r.snaps = nil
 			r.addSince = map[string]int{}
 		},
 		"block": func(t *rapid.T) {
+			r.commitPending()
 			r.l.Finalise(true)
 			r.snaps = nil
 			r.addSince = map[string]int{}
 			r.height++
-			r.logf("FlushDirtyData+Commit(%d)  // block boundary", r.height)
 			accounts, root := r.l.FlushDirtyData()
-			if err := r.l.Commit(r.height, accounts, root); err != nil {
-				r.fail("Commit(%d) failed: %v", r.height, err)
-			}
 			r.blocks++
 			for key, l := range r.layer {
 				if l == "dirty" {
 					r.layer[key] = "cache"
 				}
 			}
+			// only with the production cache sizes: a one-entry cache can evict a flushed account before its
+			// commit, which the production configuration (4 Ki accounts x 1 Mi keys) cannot
+			if r.cacheSz == 0 && rapid.Bool().Draw(t, "commitLater") {
+				// the executor hands the flushed block to persistence; reads issued before Commit returns
+				// must already see the block's values (they are served by the account cache)
+				r.logf("FlushDirtyData(%d)  // block boundary, Commit follows after the next reads", r.height)
+				r.pendingAccounts, r.pendingRoot, r.pendingHeight = accounts, root, r.height
+				return
+			}
+			r.logf("FlushDirtyData+Commit(%d)  // block boundary", r.height)
+			if err := r.l.Commit(r.height, accounts, root); err != nil {
+				r.fail("Commit(%d) failed: %v", r.height, err)
+			}
 		},
 		"reopen": func(t *rapid.T) {
+			r.commitPending()
 			if len(r.snaps) > 0 {
 				t.Skip("inside a transaction")
 			}
@@ -339,6 +379,7 @@ func c13Property(t *rapid.T) {
 			checkScalars(a)
 		},
 	})
+	r.commitPending()
 	// final full comparison
 	for a := range c13Addrs {
 		for _, k := range c13Keys {
@@ -367,6 +408,9 @@ func c13Property(t *rapid.T) {
 	}
 	if r.cacheSz > 0 {
 		classes = append(classes, "tiny-cache")
+	}
+	if r.readsBetweenFlushAndCommit > 0 {
+		classes = append(classes, "read-between-flush-and-commit")
 	}
 	if len(r.poisoned) > 0 {
 		classes = append(classes, "addstate-reverted(unspecified)")
